@@ -28,15 +28,55 @@ def impl_observe(case):
     return obs
 
 
+def builtin_sweep(rep, rng, n):
+    """artefact-specific tie for the built-in check bodies: real `Check.<builtin>(args)` evaluated on a
+    Series of pool values (plus null) against `docPred` and against the generated expression."""
+    import warnings
+    cases = []
+    for _ in range(n):
+        dtype = rng.choice(A.DTYPES)
+        cs = A.gen_check(rng, dtype)
+        cs["ignoreNa"] = False
+        vals = list(A.POOL[dtype]) + ([A.NULL] if A.can_null(dtype) else [])
+        cases.append({"mode": "builtin", "b": cs["b"], "vals": vals, "dtype": dtype, "cs": cs})
+    ans = run_driver("C01", [{"mode": "builtin", "b": c["b"], "vals": c["vals"]} for c in cases])
+    for c, a in zip(cases, ans):
+        if "error" in a:
+            rep.correspondence_break(c, "driver: " + a["error"])
+            continue
+        try:
+            with warnings.catch_warnings():
+                warnings.simplefilter("ignore")
+                out = A.check_of(c["cs"])(A.series_of(c["vals"], c["dtype"])).check_output
+            impl = [bool(x) for x in out.tolist()]
+        except Exception as e:  # noqa: BLE001
+            impl = None
+        doc = a["doc"]
+        rep.count("builtin:" + next(iter(c["b"])))
+        rep.evaluations += 1
+        if impl is None:
+            if all(d is not None for d in doc):
+                rep.property_failure({k: c[k] for k in ("b", "vals", "dtype")},
+                                     "built-in check raised where the documented predicate is defined")
+            continue
+        if any(d is None for d in doc):
+            continue
+        if impl != doc:
+            bad = [(v, i, d) for v, i, d in zip(c["vals"], impl, doc) if i != d]
+            rep.property_failure({k: c[k] for k in ("b", "vals", "dtype")},
+                                 f"built-in check differs from its documented predicate on {bad[:3]}")
+        elif a["gen"] != doc:
+            rep.correspondence_break({k: c[k] for k in ("b", "vals", "dtype")},
+                                     "generated expression differs from docPred although the implementation agrees")
+
+
 def n_cases(tier):
     return 1500 if tier == "quick" else 40000
 
 
 def run(tier, replay=None):
     rep = Report(PROP, tier)
-    gen = regenerate(("scopemap",))
-    from extract import scopemap
-    scopes = scopemap.json_table(gen["scopemap"])
+    regenerate(("scopemap", "builtin"))
     rep.audit = audit(PROP, MODULES)
     rep.audit["modules"] = MODULES
     if replay:
@@ -44,8 +84,10 @@ def run(tier, replay=None):
     else:
         rng = rng_for(PROP)
         cases = corpus_cases(PROP) + [P.gen_case(rng) for _ in range(n_cases(tier))]
+    if not replay:
+        builtin_sweep(rep, rng_for(PROP, "builtin"), 400 if tier == "quick" else 8000)
     impl = [impl_observe(c) for c in cases]
-    ans = run_driver("C01", [dict(c, scopes=scopes, depth="schemaAndData") for c in cases])
+    ans = run_driver("C01", [dict(c, depth="schemaAndData") for c in cases])
     for c, o, a in zip(cases, impl, ans):
         if "error" in a:
             rep.correspondence_break(c, "driver rejected the case: " + a["error"])
